@@ -9,6 +9,7 @@ pub use cglue::trait_group;
 
 pub mod corpus;
 pub mod corpus2;
+pub mod corpus3;
 
 pub mod c01;
 pub mod c02;
